@@ -1,0 +1,193 @@
+//go:build verif
+
+/*
+Licensed to the Apache Software Foundation (ASF) under one
+or more contributor license agreements.  See the NOTICE file
+distributed with this work for additional information
+regarding copyright ownership.  The ASF licenses this file
+to you under the Apache License, Version 2.0 (the
+"License"); you may not use this file except in compliance
+with the License.  You may obtain a copy of the License at
+
+	http://www.apache.org/licenses/LICENSE-2.0
+
+Unless required by applicable law or agreed to in writing, software
+distributed under the License is distributed on an "AS IS" BASIS,
+WITHOUT WARRANTIES OR CONDITIONS OF ANY KIND, either express or implied.
+See the License for the specific language governing permissions and
+limitations under the License.
+*/
+package locking
+
+import (
+	"runtime"
+	"strings"
+	"sync"
+	"sync/atomic"
+	"unsafe"
+)
+
+// Lock acquisition recorder for the verification harness (build tag verif).
+// The methods below shadow the promoted go-deadlock methods of Mutex and RWMutex: they record, per goroutine, which
+// lock instances are held when another one is acquired (an edge of the lock order graph), then call through.
+// Recording is off unless VerifRecordLocks(true) is called.
+
+type VerifLockEdge struct {
+	FromClass, ToClass string
+	From, To           uintptr
+	Count              int64
+}
+
+var (
+	verifRecording atomic.Bool
+	verifMu        sync.Mutex
+	verifHeld      = map[int64][]verifHeldLock{}
+	verifEdges     = map[[2]uintptr]*VerifLockEdge{}
+	verifClasses   = map[uintptr]string{}
+)
+
+type verifHeldLock struct {
+	id    uintptr
+	class string
+}
+
+func VerifRecordLocks(on bool) {
+	verifRecording.Store(on)
+}
+
+// VerifLockEdges returns the recorded acquisition edges.
+func VerifLockEdges() []VerifLockEdge {
+	verifMu.Lock()
+	defer verifMu.Unlock()
+	out := make([]VerifLockEdge, 0, len(verifEdges))
+	for _, e := range verifEdges {
+		out = append(out, *e)
+	}
+	return out
+}
+
+func VerifResetLockEdges() {
+	verifMu.Lock()
+	defer verifMu.Unlock()
+	verifHeld = map[int64][]verifHeldLock{}
+	verifEdges = map[[2]uintptr]*VerifLockEdge{}
+	verifClasses = map[uintptr]string{}
+}
+
+// the class of a lock is the receiver type of the first function outside this package on the stack, e.g. "objects.Queue"
+func verifClassOf() string {
+	pcs := make([]uintptr, 8)
+	n := runtime.Callers(4, pcs)
+	frames := runtime.CallersFrames(pcs[:n])
+	for {
+		f, more := frames.Next()
+		name := f.Function
+		if !strings.Contains(name, "/pkg/locking.") && name != "" {
+			if i := strings.LastIndex(name, "/"); i >= 0 {
+				name = name[i+1:]
+			}
+			// pkg.(*Type).Method -> pkg.Type ; pkg.Func -> pkg.Func
+			if j := strings.Index(name, ".("); j >= 0 {
+				if k := strings.Index(name[j:], ")"); k >= 0 {
+					return name[:j] + "." + strings.TrimPrefix(name[j+2:j+k], "*")
+				}
+			}
+			return name
+		}
+		if !more {
+			return "?"
+		}
+	}
+}
+
+// verifGoid parses the goroutine id out of the stack header ("goroutine 123 [running]:")
+func verifGoid() int64 {
+	var buf [40]byte
+	n := runtime.Stack(buf[:], false)
+	var id int64
+	for _, c := range buf[10:n] {
+		if c < '0' || c > '9' {
+			break
+		}
+		id = id*10 + int64(c-'0')
+	}
+	return id
+}
+
+func verifAcquire(id uintptr) {
+	if !verifRecording.Load() {
+		return
+	}
+	g := verifGoid()
+	verifMu.Lock()
+	class, ok := verifClasses[id]
+	if !ok {
+		class = verifClassOf()
+		verifClasses[id] = class
+	}
+	for _, h := range verifHeld[g] {
+		if h.id == id {
+			continue
+		}
+		k := [2]uintptr{h.id, id}
+		e := verifEdges[k]
+		if e == nil {
+			e = &VerifLockEdge{FromClass: h.class, ToClass: class, From: h.id, To: id}
+			verifEdges[k] = e
+		}
+		e.Count++
+	}
+	verifHeld[g] = append(verifHeld[g], verifHeldLock{id, class})
+	verifMu.Unlock()
+}
+
+func verifRelease(id uintptr) {
+	if !verifRecording.Load() {
+		return
+	}
+	g := verifGoid()
+	verifMu.Lock()
+	held := verifHeld[g]
+	for i := len(held) - 1; i >= 0; i-- {
+		if held[i].id == id {
+			held = append(held[:i], held[i+1:]...)
+			break
+		}
+	}
+	if len(held) == 0 {
+		delete(verifHeld, g)
+	} else {
+		verifHeld[g] = held
+	}
+	verifMu.Unlock()
+}
+
+func (m *Mutex) Lock() {
+	m.Mutex.Lock()
+	verifAcquire(uintptr(unsafe.Pointer(m)))
+}
+
+func (m *Mutex) Unlock() {
+	verifRelease(uintptr(unsafe.Pointer(m)))
+	m.Mutex.Unlock()
+}
+
+func (m *RWMutex) Lock() {
+	m.RWMutex.Lock()
+	verifAcquire(uintptr(unsafe.Pointer(m)))
+}
+
+func (m *RWMutex) Unlock() {
+	verifRelease(uintptr(unsafe.Pointer(m)))
+	m.RWMutex.Unlock()
+}
+
+func (m *RWMutex) RLock() {
+	m.RWMutex.RLock()
+	verifAcquire(uintptr(unsafe.Pointer(m)))
+}
+
+func (m *RWMutex) RUnlock() {
+	verifRelease(uintptr(unsafe.Pointer(m)))
+	m.RWMutex.RUnlock()
+}
